@@ -21,7 +21,7 @@ import (
 	"verif/internal/progcheck"
 )
 
-const rule = "case = generated program with scoping, closure, container and object sections over a bounded name set; non-trivial = at least one of: a closure called after its defining call returned; a name shadowed (let / parameter) and read on both sides; a container written through one path and read through another (alias, parameter, nested path); a numeric-key write or delete on a map; a read-after-write check through an unusual index/key (negative, out of range, fractional, numeric-looking text, dotted, null); an object with >= 1 super template; distinct by source text"
+const rule = "case = generated program with scoping, closure, container and object sections over a bounded name set; non-trivial = at least one of: a closure called after its defining call returned; a name shadowed (let / parameter) and read on both sides; a function called with every argument count up to its parameter count (missing parameters echo their default or null); a container written through one path and read through another (alias, parameter, nested path); a numeric-key write or delete on a map; a read-after-write check through an unusual index/key (negative, out of range, fractional, numeric-looking text, dotted, null); an object with >= 1 super template; distinct by source text"
 
 // Case is one program.
 type Case struct {
@@ -212,8 +212,33 @@ func (g *gen) function(e *env, depth int) []*lang.S {
 		}
 		fe.nums[p] = true
 	}
-	kind := g.pick(5, "fkind")
+	kind := g.pick(6, "fkind")
 	switch kind {
+	case 5: // parameter binding: every count of arguments from 0 to the parameter count; missing ones read as their default or null
+		pf := &lang.Func{Name: name}
+		npar := 1 + g.pick(4, "pbn")
+		var echo []*lang.E
+		for i := 0; i < npar; i++ {
+			p := fmt.Sprintf("x%d", i+1)
+			pf.Params = append(pf.Params, p)
+			var d *lang.E
+			if g.pick(3, "pbdef") == 0 {
+				d = []*lang.E{num(70 + i), lang.Str("dflt"), lang.Bool(true), lang.Null()}[g.pick(4, "pbdv")]
+			}
+			pf.Defs = append(pf.Defs, d)
+			echo = append(echo, lang.Var(p))
+		}
+		pf.Body = []*lang.S{lang.Rec(lang.List(echo...)), lang.Return(num(0))}
+		out = append(out, &lang.S{K: "func", Fn: pf})
+		for i, n := 0, 1+g.pick(3, "pbcalls"); i < n; i++ {
+			var args []*lang.E
+			for k, na := 0, g.pick(npar+1, "pbargs"); k < na; k++ {
+				args = append(args, []*lang.E{g.numExpr(e), lang.Str("arg"), lang.List(num(k)), lang.Null()}[g.pick(4, "pbav")])
+			}
+			out = append(out, lang.Rec(lang.Call(lang.Var(name), args...)))
+		}
+		g.tag("fewer-arguments-than-parameters")
+		return out
 	case 0: // recursion with a depth argument
 		if np == 0 {
 			f.Params, f.Defs = []string{"p"}, []*lang.E{nil}
@@ -642,7 +667,7 @@ func genCase(rt *rapid.T) Case {
 		p.Body = append(p.Body, lang.Probe("final-"+n, n))
 	}
 	var tags []string
-	for _, t := range []string{"shadow-let", "shadow-param", "closure-after-return", "alias", "param-reference", "nested-path", "numeric-map-key", "object-with-super", "read-after-write-unusual-key"} {
+	for _, t := range []string{"shadow-let", "shadow-param", "closure-after-return", "alias", "param-reference", "nested-path", "numeric-map-key", "object-with-super", "read-after-write-unusual-key", "fewer-arguments-than-parameters"} {
 		if g.tags[t] {
 			tags = append(tags, t)
 		}
